@@ -11,50 +11,64 @@ import (
 	"github.com/wrgl/wrgl/pkg/objects"
 )
 
-func SeekCommonAncestor(db objects.Store, commits ...[]byte) (baseCommit []byte, err error) {
-	n := len(commits)
-	qs := make([]*CommitsQueue, n)
-	bases := make([][]byte, n)
-	for i, sum := range commits {
-		qs[i], err = NewCommitsQueue(db, [][]byte{sum})
-		if err != nil {
-			return
+// ancestorSet returns every commit reachable from sum, sum included
+func ancestorSet(db objects.Store, sum []byte) (map[string]struct{}, error) {
+	q, err := NewCommitsQueue(db, [][]byte{sum})
+	if err != nil {
+		return nil, err
+	}
+	set := map[string]struct{}{}
+	for {
+		b, _, err := q.PopInsertParents()
+		if errors.Is(err, io.EOF) {
+			return set, nil
 		}
-		bases[i] = sum
+		if err != nil {
+			return nil, err
+		}
+		set[string(b)] = struct{}{}
+	}
+}
+
+// SeekCommonAncestor returns a commit that is an ancestor of (or the same as) every
+// given commit. If one of the given commits is an ancestor of all the others, that commit
+// is returned. Otherwise it is the first commit, walking back from the first given commit,
+// that all the others descend from.
+func SeekCommonAncestor(db objects.Store, commits ...[]byte) (baseCommit []byte, err error) {
+	sets := make([]map[string]struct{}, len(commits))
+	for i, sum := range commits {
+		sets[i], err = ancestorSet(db, sum)
+		if err != nil {
+			return nil, err
+		}
+	}
+	isCommon := func(sum []byte) bool {
+		for _, set := range sets {
+			if _, ok := set[string(sum)]; !ok {
+				return false
+			}
+		}
+		return true
+	}
+	for _, sum := range commits {
+		if isCommon(sum) {
+			return sum, nil
+		}
+	}
+	q, err := NewCommitsQueue(db, commits[:1])
+	if err != nil {
+		return nil, err
 	}
 	for {
-		for i := len(bases) - 1; i >= 0; i-- {
-			for j := len(bases) - 1; j >= 0; j-- {
-				if i == j {
-					continue
-				}
-				if qs[j].Seen(bases[i]) {
-					// remove j element
-					copy(bases[j:], bases[j+1:])
-					bases = bases[:len(bases)-1]
-					copy(qs[j:], qs[j+1:])
-					qs = qs[:len(qs)-1]
-					if i > j {
-						i--
-					}
-				}
-			}
-		}
-		if len(bases) == 1 {
-			break
-		}
-		eofs := 0
-		for i, q := range qs {
-			bases[i], _, err = q.PopInsertParents()
-			if errors.Is(err, io.EOF) {
-				eofs++
-			} else if err != nil {
-				return nil, err
-			}
-		}
-		if eofs == len(qs) {
+		sum, _, err := q.PopInsertParents()
+		if errors.Is(err, io.EOF) {
 			return nil, fmt.Errorf("common ancestor commit not found")
 		}
+		if err != nil {
+			return nil, err
+		}
+		if isCommon(sum) {
+			return sum, nil
+		}
 	}
-	return bases[0], nil
 }
